@@ -682,6 +682,76 @@ func substituted(c *core.Ctx, r *core.Rand, i int) {
 	}
 }
 
+// sharedOptions: several clients (and several executors) are configured from slices of middlewares that share a
+// backing array with spare capacity - a common prefix plus one stage of their own, or one option value reused.
+// Every chain must run exactly the stages IT was registered with, in registration order.
+func sharedOptions(c *core.Ctx, r *core.Rand, i int) {
+	srv := script.NewServer(func(rx script.Received, _ *memnet.Conn) *kmip.ResponseMessage {
+		return script.OK(rx.Msg, func(int, *kmip.RequestBatchItem) kmip.OperationPayload {
+			return &payloads.ActivateResponsePayload{UniqueIdentifier: "ok"}
+		})
+	})
+	defer srv.Close()
+	var mu sync.Mutex
+	var trace []string
+	mw := func(name string) kmipclient.Middleware {
+		return func(next kmipclient.Next, ctx context.Context, m *kmip.RequestMessage) (*kmip.ResponseMessage, error) {
+			mu.Lock()
+			trace = append(trace, name)
+			mu.Unlock()
+			return next(ctx, m)
+		}
+	}
+	nCommon := 1 + r.Intn(3)
+	common := make([]kmipclient.Middleware, 0, 8) // spare capacity: appends by the library may land in the shared array
+	want := []string{}
+	for k := 0; k < nCommon; k++ {
+		common = append(common, mw(fmt.Sprintf("common%d", k)))
+		want = append(want, fmt.Sprintf("common%d", k))
+	}
+	N := 2 + r.Intn(3)
+	var clients []*kmipclient.Client
+	for k := 0; k < N; k++ {
+		opts := []kmipclient.Option{kmipclient.WithDialerUnsafe(func(context.Context) (net.Conn, error) { return srv.L.Dial() }), kmipclient.EnforceVersion(kmip.V1_4)}
+		switch i % 3 {
+		case 0:
+			opts = append(opts, kmipclient.WithMiddlewares(common...), kmipclient.WithMiddlewares(mw(fmt.Sprintf("own%d", k))))
+		case 1:
+			opts = append(opts, kmipclient.WithMiddlewares(common...), kmipclient.WithMiddlewares(mw(fmt.Sprintf("own%d", k)), mw(fmt.Sprintf("own%d-b", k))))
+		default:
+			opts = append(opts, kmipclient.WithMiddlewares(common[:1]...), kmipclient.WithMiddlewares(common[1:]...), kmipclient.WithMiddlewares(mw(fmt.Sprintf("own%d", k))))
+		}
+		cl, err := kmipclient.Dial("mem", opts...)
+		if err != nil {
+			panic("harness: dial: " + err.Error())
+		}
+		defer cl.Close()
+		clients = append(clients, cl)
+	}
+	c.Count("shared_option_clients", int64(N))
+	c.Distinct(core.Hash64("shared-options", fmt.Sprint(i%3, nCommon, N)))
+	for k, cl := range clients {
+		mu.Lock()
+		trace = nil
+		mu.Unlock()
+		if _, err := cl.Roundtrip(context.Background(), reqMsg(fmt.Sprintf("so%d-%d", i, k))); err != nil {
+			c.Inconclusive("shared-options: roundtrip failed: " + err.Error())
+			continue
+		}
+		exp := append(append([]string{}, want...), fmt.Sprintf("own%d", k))
+		if i%3 == 1 {
+			exp = append(exp, fmt.Sprintf("own%d-b", k))
+		}
+		mu.Lock()
+		got := append([]string{}, trace...)
+		mu.Unlock()
+		if fmt.Sprint(got) != fmt.Sprint(exp) {
+			c.Violation("C19:client:stages-of-another-client", fmt.Sprintf("client %d of %d, registered with %v, ran %v (the option slices share a backing array with spare capacity)", k+1, N, exp, got), nil)
+			return
+		}
+	}
+}
+
 func Spec() *core.Spec {
 	slog.SetDefault(slog.New(slog.NewTextHandler(io.Discard, nil)))
 	return &core.Spec{
@@ -690,9 +760,15 @@ func Spec() *core.Spec {
 		Race:  true,
 		Rule: "all programs of length 0..3 (quick) / 0..4 (thorough) over 10 stage kinds {pass, call next 2x, 3x, call next twice concurrently (hedged; judged on the multiset of events), short-circuit with response, short-circuit with error, replace message, replace context, fail after next, rewrite response} " +
 			"for the client chain (scripted server as transport), the server message chain and the server batch-item chain; every program run once alone and once from 16 goroutines sharing the chain (race detector on); " +
-			"the recorded enter/core/exit trace of every request must equal the trace of a reference interpreter, event for event. the server chains also over a core that panics, returns an error or rejects the protocol version; a message middleware substituting a message with another continuation option / version / item list, compared with a middleware-free executor given the substituted message; distinct = distinct (chain, program)",
-		Required: []string{"programs_run.client", "programs_run.server-message", "programs_run.server-batch-item", "concurrent_runs", "events", "hedged_programs_run", "programs_run.core-panic", "programs_run.core-error", "programs_run.core-version", "substituted_messages.option-changed", "substituted_messages.version-changed"},
+			"the recorded enter/core/exit trace of every request must equal the trace of a reference interpreter, event for event. the server chains also over a core that panics, returns an error or rejects the protocol version; several clients configured from middleware slices sharing a backing array; a message middleware substituting a message with another continuation option / version / item list, compared with a middleware-free executor given the substituted message; distinct = distinct (chain, program)",
+		Required: []string{"programs_run.client", "programs_run.server-message", "programs_run.server-batch-item", "concurrent_runs", "events", "hedged_programs_run", "programs_run.core-panic", "programs_run.core-error", "programs_run.core-version", "substituted_messages.option-changed", "substituted_messages.version-changed", "shared_option_clients"},
 		Families: []core.Family{
+			{Name: "shared-options", N: func(tier string) int {
+				if tier == core.Thorough {
+					return 3000
+				}
+				return 60
+			}, Run: sharedOptions},
 			{Name: "substituted-message", N: func(tier string) int {
 				if tier == core.Thorough {
 					return 300000
